@@ -1,1 +1,175 @@
-//! placeholder
+//! Corruption engine: token- and byte-level mutation of valid component / factor files, and token soups.
+
+use crate::rng::Rng;
+
+pub const TOKENS: [&str; 64] = [
+    "CONSUMO", "PRODUCCION", "AUX", "SALIDA", "DEMANDA", "ACS", "CAL", "REF", "VEN", "ILU", "NEPB", "COGEN", "ELECTRICIDAD", "EAMBIENTE", "TERMOSOLAR", "BIOMASA",
+    "BIOMASADENSIFICADA", "GASNATURAL", "RED1", "RED2", "EL_INSITU", "EL_COGEN", "RED", "INSITU", "A_RED", "A_NEPB", "SUMINISTRO", "A", "B", "0", "1", "-1", "2", "1.5",
+    "-3.25", "1e10", "1e39", "-1e39", "NaN", "nan", "inf", "-inf", "-0", "1e-40", "", " ", "#", "#META", "#CTE_", "#META CTE_KEXP: 2", "#META CTE_AREAREF: x", "#META CTE_RED1: a, b",
+    "#META sin_dos_puntos", "#CTE_AREAREF: 5", "vector", "vector,", "á€ñ", "日本", "0x10", "1,2", "1;2", "9999999999", "-2147483649", "\u{feff}",
+];
+
+fn split_fields(l: &str) -> Vec<String> {
+    l.split(',').map(|s| s.to_string()).collect()
+}
+
+/// apply 1-3 random mutations to a text
+pub fn mutate(r: &mut Rng, txt: &str) -> String {
+    let mut lines: Vec<String> = txt.lines().map(|s| s.to_string()).collect();
+    let nm = 1 + r.below(3);
+    for _ in 0..nm {
+        if lines.is_empty() {
+            lines.push(String::new());
+        }
+        let li = r.usize(lines.len());
+        match r.below(16) {
+            0 => {
+                lines.remove(li);
+            }
+            1 => {
+                let l = lines[li].clone();
+                lines.insert(li, l);
+            }
+            2 => {
+                // truncate a line (at a char boundary)
+                let l = lines[li].clone();
+                let mut c = r.usize(l.len() + 1);
+                while !l.is_char_boundary(c) {
+                    c -= 1;
+                }
+                lines[li] = l[..c].to_string();
+            }
+            3 => {
+                let mut f = split_fields(&lines[li]);
+                let i = r.usize(f.len());
+                f.remove(i);
+                lines[li] = f.join(",");
+            }
+            4 => {
+                let mut f = split_fields(&lines[li]);
+                let i = r.usize(f.len());
+                f[i] = r.pick(&TOKENS).to_string();
+                lines[li] = f.join(",");
+            }
+            5 => {
+                let mut f = split_fields(&lines[li]);
+                let i = r.usize(f.len() + 1);
+                f.insert(i, r.pick(&TOKENS).to_string());
+                lines[li] = f.join(",");
+            }
+            6 => {
+                let j = r.usize(lines.len());
+                lines.swap(li, j);
+            }
+            7 => {
+                let mut f = split_fields(&lines[li]);
+                let i = r.usize(f.len());
+                let j = r.usize(f.len());
+                f.swap(i, j);
+                lines[li] = f.join(",");
+            }
+            8 => {
+                // a soup line
+                let n = 1 + r.usize(8);
+                let f: Vec<String> = (0..n).map(|_| r.pick(&TOKENS).to_string()).collect();
+                lines.insert(li, f.join(","));
+            }
+            9 => {
+                // wrong length: drop or add trailing values
+                let mut f = split_fields(&lines[li]);
+                if r.chance(1, 2) && f.len() > 1 {
+                    let k = 1 + r.usize(f.len().min(4));
+                    f.truncate(f.len() - k.min(f.len() - 1));
+                } else {
+                    for _ in 0..1 + r.usize(3) {
+                        f.push(" 1.0".into());
+                    }
+                }
+                lines[li] = f.join(",");
+            }
+            10 => {
+                // replace one value by a hostile number
+                let mut f = split_fields(&lines[li]);
+                let i = r.usize(f.len());
+                f[i] = r.pick(&["NaN", "inf", "-inf", "1e39", "-0", "1e-45", "1e-40", "3.4028235e38", "-1", "", "1e", "--1", "+1", "1_0", "0x1p3", "١٢"]).to_string();
+                lines[li] = f.join(",");
+            }
+            11 => {
+                // byte-level: replace / insert one character
+                let l: Vec<char> = lines[li].chars().collect();
+                if !l.is_empty() {
+                    let i = r.usize(l.len());
+                    let c = *r.pick(&[',', '#', ':', ' ', '\t', '-', '.', 'e', 'é', '€', '\u{0}', '\u{7f}', '"', '<', '&', '\\', ';', '\u{feff}', '\u{200b}']);
+                    let mut l2 = l.clone();
+                    if r.chance(1, 2) {
+                        l2[i] = c;
+                    } else {
+                        l2.insert(i, c);
+                    }
+                    lines[li] = l2.into_iter().collect();
+                }
+            }
+            12 => {
+                // duplicate the whole file's data with another length
+                let extra: Vec<String> = lines.iter().filter(|l| l.contains("CONSUMO") || l.contains("DEMANDA")).take(2).map(|l| format!("{l}, 7")).collect();
+                lines.extend(extra);
+            }
+            13 => {
+                // change an id
+                let mut f = split_fields(&lines[li]);
+                f[0] = r.pick(&["-1", "99999999999", "1.5", "x", "", "0", "-0", "+3", " 2 "]).to_string();
+                lines[li] = f.join(",");
+            }
+            14 => {
+                // metadata mutations
+                lines.insert(0, r.pick(&["#META", "#META :", "#META a", "#META CTE_AREAREF: -5", "#META CTE_KEXP: abc", "#CTE_", "#META CTE_LOCALIZACION: MARTE", "#META CTE_RED1: 1, 2", "#META CTE_RED2: {ren: x}", "#METAé: ü"]).to_string());
+            }
+            _ => {
+                // remove every line of one kind (e.g. all SALIDA lines of a system with AUX)
+                let kind = *r.pick(&["SALIDA", "CONSUMO", "PRODUCCION", "AUX", "DEMANDA", "RED, SUMINISTRO"]);
+                lines.retain(|l| !l.contains(kind));
+            }
+        }
+    }
+    lines.join(if r.chance(1, 10) { "\r\n" } else { "\n" })
+}
+
+/// a text made only of vocabulary tokens
+pub fn soup(r: &mut Rng) -> String {
+    let nl = 1 + r.usize(8);
+    let mut s = String::new();
+    for _ in 0..nl {
+        let n = 1 + r.usize(10);
+        let f: Vec<&str> = (0..n).map(|_| *r.pick(&TOKENS)).collect();
+        s.push_str(&f.join(if r.chance(1, 8) { " , " } else { "," }));
+        s.push('\n');
+    }
+    s
+}
+
+/// every .csv under /repo/test_data (components and factors), split by kind
+pub fn seed_files(repo: &std::path::Path) -> (Vec<String>, Vec<String>) {
+    let mut comps = vec![];
+    let mut facs = vec![];
+    let mut stack = vec![repo.join("test_data")];
+    while let Some(d) = stack.pop() {
+        let Ok(rd) = std::fs::read_dir(&d) else { continue };
+        let mut entries: Vec<_> = rd.filter_map(|e| e.ok()).map(|e| e.path()).collect();
+        entries.sort();
+        for p in entries {
+            if p.is_dir() {
+                stack.push(p);
+            } else if p.extension().map(|x| x == "csv").unwrap_or(false) {
+                if let Ok(bytes) = std::fs::read(&p) {
+                    let t = String::from_utf8_lossy(&bytes).to_string();
+                    if t.contains("SUMINISTRO") {
+                        facs.push(t);
+                    } else if t.contains("CONSUMO") || t.contains("PRODUCCION") {
+                        comps.push(t);
+                    }
+                }
+            }
+        }
+    }
+    (comps, facs)
+}
